@@ -9,6 +9,7 @@ Helper lemmas: Proofs/Bimg.lean.
 import SpsdkVerif.Model.Bimg
 import SpsdkVerif.Model.BimgSpec
 import SpsdkVerif.Proofs.Bimg
+import SpsdkVerif.Proofs.BimgAny
 
 namespace SpsdkVerif.C14
 open SpsdkVerif SpsdkVerif.Misc SpsdkVerif.BinImg SpsdkVerif.Bimg SpsdkVerif.Generated
@@ -205,7 +206,50 @@ theorem parseAll_later (ext : Ext) (fcbSup : Bool) (d : Desc) (init : Nat) (raws
     parseAll ext fcbSup d.segs b = .ok (init, expectedFound init (mkSlots d.segs raws)) := by
   exact Bimg.parseAll_later' ext fcbSup d init raws h hsup hdel b hb pre post hc h0 hpre
 
-/-! ## 6. Non-vacuity: a concrete row, concrete payloads, a concrete `Ext` -/
+/-- `parse` answers the first trial that accepts, in the order: full image, then the INIT-segment offsets in table order -/
+theorem parseAll_first (ext : Ext) (fcbSup : Bool) (segs : List Seg) (bin : Bytes) :
+    parseAll ext fcbSup segs bin =
+      (match firstSome (trial ext fcbSup segs bin) (0 :: initCandidates segs) with
+       | some r => .ok r
+       | none => .error .spsdk) :=
+  Bimg.parseAll_first' ext fcbSup segs bin
+
+/-- the precise condition of the open finding `C14-later-start-misdetected`: an image that starts at the INIT segment
+    `init` is NOT answered with (`init`, the supplied segments) exactly when one of the trials that come first - the full
+    image, the INIT candidates before `init` - accepts the shifted bytes with another answer (decidable for a given `Ext`) -/
+theorem parseAll_misdetects_iff (ext : Ext) (fcbSup : Bool) (d : Desc) (init : Nat) (raws : List (Option Bytes))
+    (h : Ctx d init raws) (hsup : Supplied init (mkSlots d.segs raws)) (hdel : Delimit ext fcbSup init (mkSlots d.segs raws))
+    (b : Bytes) (hb : exportImg d init raws = .ok b)
+    (pre post : List Int) (hc : initCandidates d.segs = pre ++ (init : Int) :: post) :
+    parseAll ext fcbSup d.segs b ≠ .ok (init, expectedFound init (mkSlots d.segs raws)) ↔
+      ∃ r, firstSome (trial ext fcbSup d.segs b) (0 :: pre) = some r ∧ r ≠ (init, expectedFound init (mkSlots d.segs raws)) :=
+  Bimg.parseAll_misdetects_iff' ext fcbSup d init raws h hsup hdel b hb pre post hc
+
+/-! ## 6. Parse without memory type (`BootableImage.parse(binary, family)`: the family's memory types in database order) -/
+
+/-- the first memory type whose full-image trial accepts wins (the later-start trials run only when none does) -/
+theorem parseAny_first_loop (ext : Ext) (fcbSup : Bool) (descs : List (List Seg)) (bin : Bytes) (i : Nat) (r : Nat × List Found)
+    (h : firstSomeIdx (fun segs => trial ext fcbSup segs bin 0) descs 0 = some (i, r)) :
+    parseAny ext fcbSup descs bin = .ok (i, r.1, r.2) :=
+  Bimg.parseAny_first_loop' ext fcbSup descs bin i r h
+
+/-- a full image made for the `i`-th memory type: if every earlier memory type has the same segment table or rejects the
+    image, the answer is a memory type with that segment table (the `i`-th or an earlier twin - e.g. flexspi_nand / semc_nand /
+    sd / mmc share one table), init offset 0 and exactly the supplied segments.  The hypothesis on the earlier memory types is
+    needed: see the open finding `C14-untyped-parse-mbi-lenient`. -/
+theorem parse_any_memtype (ext : Ext) (fcbSup : Bool) (descs : List (List Seg)) (i : Nat) (d : Desc) (raws : List (Option Bytes))
+    (hi : descs[i]? = some d.segs)
+    (h : Ctx d 0 raws) (hsup : Supplied 0 (mkSlots d.segs raws)) (hdel : Delimit ext fcbSup 0 (mkSlots d.segs raws))
+    (b : Bytes) (hb : exportImg d 0 raws = .ok b)
+    (hearlier : ∀ j, j < i → ∀ s, descs[j]? = some s → s = d.segs ∨ trial ext fcbSup s b 0 = none) :
+    ∃ j, j ≤ i ∧ descs[j]? = some d.segs ∧
+      parseAny ext fcbSup descs b = .ok (j, 0, expectedFound 0 (mkSlots d.segs raws)) :=
+  Bimg.parseAny_full' ext fcbSup descs i d raws hi h hsup hdel b hb hearlier
+
+/-! ## 7. `Delimit` discharged for application containers from the container models: Properties/XC14.lean (kept outside this
+    module's import closure so that another property's work in progress cannot block these obligations) -/
+
+/-! ## 8. Non-vacuity: a concrete row, concrete payloads, a concrete `Ext` -/
 
 /-- toy container format for the examples: `A5 n …` is a container of `n` bytes -/
 def exExt : Ext where
@@ -275,5 +319,21 @@ example : (match exportImg exDesc 8 exRaws with
     | .error _ => false) = true := by decide +kernel
 example : expectedFound 8 (mkSlots exDesc.segs exRaws) =
     [none, some (0, exFcb), some (24, [0xA5, 5, 1, 2, 3]), some (32, [0xA5, 3, 8])] := by decide +kernel
+
+/-- parse without memory type: a family with two memory types - a container-only table (like serial_downloader) first, then
+    `exDesc`; the full image made for the second is answered with index 1 (the first one's trial rejects the padding), and the
+    image that holds just the container is answered with index 0 although it was made for `exDesc` starting at 32: it IS a
+    valid image of the first memory type as well (same segments found) -/
+def exDescs : List (List Seg) := [(exDesc.segs.drop 2).map (fun s => { s with pos := s.pos.map (fun _ => 0) }), exDesc.segs]
+example : (match exportImg exDesc 0 exRaws2 with
+    | .ok b => (match parseAny exExt false exDescs b with
+        | .ok (i, ini, f) => decide (i = 1 ∧ ini = 0 ∧ f = expectedFound 0 (mkSlots exDesc.segs exRaws2))
+        | .error _ => false)
+    | .error _ => false) = true := by decide +kernel
+example : (match exportImg exDesc 32 exRaws with
+    | .ok b => (match parseAny exExt false exDescs b with
+        | .ok (i, ini, f) => decide (i = 0 ∧ ini = 0 ∧ f = [some (0, [0xA5, 5, 1, 2, 3]), some (8, [0xA5, 3, 8])])
+        | .error _ => false)
+    | .error _ => false) = true := by decide +kernel
 
 end SpsdkVerif.C14
